@@ -333,7 +333,11 @@ func (p *nriPlugin) StopPodSandbox(ctx context.Context, podSandbox *api.PodSandb
 	b := metrics.Block()
 	defer b.Done()
 
-	pod, _ := m.cache.LookupPod(podSandbox.GetId())
+	pod, ok := m.cache.LookupPod(podSandbox.GetId())
+	if !ok {
+		nri.Warn("%s: unknown pod %s, nothing to release", event, podSandbox.GetId())
+		return nil
+	}
 	released := slices.Clone(pod.GetContainers())
 	m.agent.PurgePodResources(pod.GetNamespace(), pod.GetName())
 
@@ -369,7 +373,11 @@ func (p *nriPlugin) RemovePodSandbox(ctx context.Context, podSandbox *api.PodSan
 
 	m := p.resmgr
 
-	pod, _ := m.cache.LookupPod(podSandbox.GetId())
+	pod, ok := m.cache.LookupPod(podSandbox.GetId())
+	if !ok {
+		nri.Warn("%s: unknown pod %s, nothing to remove", event, podSandbox.GetId())
+		return nil
+	}
 	released := slices.Clone(pod.GetContainers())
 	m.agent.PurgePodResources(pod.GetNamespace(), pod.GetName())
 
